@@ -1,944 +1,22 @@
 // C05: any crash point recovers to exactly the position of the newest LTX file.
 //
-// Fault enumeration: a history is run once on real stores while the data
-// directory of the node under test is copied (a) before every file operation
-// of the SQLite client, (b) before every file-system mutation LiteFS issues
-// through its OS interface and (c) before every internal page write and
-// database truncate (verif hook). Each copy is the disk a process crash at
-// that point leaves. Every image is then opened by a fresh Store and judged.
+// The enumeration itself lives in package verif/crashh (the C15 check runs its drop histories too).
 package c05
 
 import (
-	"bytes"
-	"context"
-	"encoding/json"
-	"fmt"
-	"net/http"
-	"os"
-	"path/filepath"
-	"runtime/debug"
-	"strings"
-
-	"github.com/superfly/ltx"
 	"testing"
-	"testing/synctest"
-	"time"
 
-	"github.com/superfly/litefs"
-	lfshttp "github.com/superfly/litefs/http"
-	"verif/lab"
-	"verif/mon"
-	"verif/oracle"
-	"verif/pager"
-	"verif/prog"
+	"verif/crashh"
 	"verif/vlib"
 )
 
-type Case struct {
-	H        string `json:"h"` // history name
-	PageSize int    `json:"ps"`
-	Start    uint32 `json:"start"`
-	Variant  int    `json:"variant"`
-}
-
-type Result struct {
-	V       []prog.V       `json:"v,omitempty"`
-	Images  int            `json:"images"`
-	Classes map[string]int `json:"classes"`
-	Harness string         `json:"harness,omitempty"`
-	Sample  []string       `json:"sample,omitempty"`
-}
-
-type pos [2]uint64
-
-type snap struct {
-	label string
-	dir   string
-	acked bool // the client's commit operation had returned success before this point
-}
-
-type collector struct {
-	live  string
-	base  string
-	snaps []snap
-	acked bool
-	on    bool
-}
-
-func (c *collector) snap(label string) {
-	if !c.on {
-		return
-	}
-	dir := filepath.Join(c.base, fmt.Sprintf("img%04d", len(c.snaps)))
-	if err := lab.CopyDir(c.live, dir); err != nil {
-		panic("copy: " + err.Error())
-	}
-	c.snaps = append(c.snaps, snap{label: label, dir: dir, acked: c.acked})
-}
-
-type env struct {
-	c    Case
-	res  *Result
-	base string
-	ref  map[pos]*oracle.Image
-	svc  *lab.BackupSvc
-}
-
-func (e *env) viol(key, format string, args ...any) {
-	for _, v := range e.res.V {
-		if v.Key == key {
-			return
-		}
-	}
-	b, _ := json.Marshal(e.c)
-	e.res.V = append(e.res.V, prog.V{Key: key, What: fmt.Sprintf(format, args...) + "\ncase: " + string(b)})
-}
-
-func posOf(db *litefs.DB) pos {
-	if db == nil {
-		return pos{}
-	}
-	p := db.Pos()
-	return pos{uint64(p.TXID), uint64(p.PostApplyChecksum)}
-}
-
-// watch installs the OS wrapper (via node config) and the page-write hook for one store.
-func (col *collector) wrapOS(inner litefs.OS) litefs.OS {
-	return &lab.HookOS{Inner: inner, Before: func(op, call, name string) error {
-		if strings.HasSuffix(name, "/shm") || strings.Contains(op, "SHM") {
-			return nil // the SHM file is discarded at open; not part of the durable state
-		}
-		col.snap("litefs " + op + " " + call + " " + filepath.Base(name))
-		return nil
-	}}
-}
-
-func (col *collector) hookStore(s *litefs.Store) {
-	litefs.VerifSetHook(func(site string, obj any, a int64, b bool) {
-		db, ok := obj.(*litefs.DB)
-		if !ok || db.Store() != s {
-			return
-		}
-		switch site {
-		case "db.writepage":
-			col.snap(fmt.Sprintf("litefs page write %d", a))
-		case "db.truncate":
-			col.snap(fmt.Sprintf("litefs database truncate to %d pages", a))
-		}
-	})
-}
-
-// judge opens every image and checks the recovery oracle.
-func (e *env) judge(col *collector, before, after pos, beforeImg, afterImg *oracle.Image, dbName string) {
-	for i, s := range col.snaps {
-		e.judge1(i, s, before, after, beforeImg, afterImg, dbName)
-		lab.RemoveAll(s.dir)
-	}
-	e.res.Images += len(col.snaps)
-	for i := 0; i < len(col.snaps) && len(e.res.Sample) < 12; i += len(col.snaps)/12 + 1 {
-		e.res.Sample = append(e.res.Sample, col.snaps[i].label)
-	}
-}
-
-func (e *env) judge1(i int, s snap, before, after pos, beforeImg, afterImg *oracle.Image, dbName string) {
-	what := kindOf(s.label)
-	n := lab.NewNode(lab.NodeConfig{Name: "X", ID: 0x7777, Dir: s.dir, Candidate: true, Leaser: litefs.NewStaticLeaser(true, "X", "http://X")})
-	var err error
-	func() {
-		defer func() {
-			if p := recover(); p != nil {
-				st := debug.Stack()
-				e.viol(prog.PanicKey(p, st), "crash before [%d: %s]: Store.Open panicked: %v\n%s", i, s.label, p, string(st))
-				err = fmt.Errorf("panic")
-			}
-		}()
-		err = n.Start()
-	}()
-	defer func() {
-		defer func() { _ = recover() }()
-		_ = n.Stop()
-	}()
-	if err != nil {
-		e.viol("reopen-failed/"+e.c.H+"/"+what, "crash before [%d: %s]: restart on the same data directory failed: %v", i, s.label, err)
-		return
-	}
-	lab.WaitFor(time.Second, n.Store.IsPrimary)
-	db := n.DB(dbName)
-	got := posOf(db)
-	// Newest transaction file on disk.
-	var newest pos
-	if db != nil {
-		ch := oracle.CheckChain(db.LTXDir(), 0, 0)
-		if len(ch.Files) > 0 {
-			f := ch.Files[len(ch.Files)-1]
-			newest = pos{uint64(f.Header.MaxTXID), uint64(f.Trailer.PostApplyChecksum)}
-		}
-	}
-	if got != newest {
-		e.viol("position-not-newest-ltx/"+e.c.H+"/"+what, "crash before [%d: %s]: recovered position (%d,%016x) is not the position named by the newest LTX file (%d,%016x)", i, s.label, got[0], got[1], newest[0], newest[1])
-	}
-	var want *oracle.Image
-	switch got {
-	case before:
-		want = beforeImg
-	case after:
-		want = afterImg
-	default:
-		e.viol("position-neither/"+e.c.H+"/"+what, "crash before [%d: %s]: recovered position (%d,%016x) is neither the position before (%d,%016x) nor after (%d,%016x) the interrupted operation", i, s.label, got[0], got[1], before[0], before[1], after[0], after[1])
-		return
-	}
-	if s.acked && got != after {
-		e.viol("acked-commit-lost/"+e.c.H+"/"+what, "crash before [%d: %s]: the commit had already returned success to the client but the restarted node is at the position before it", i, s.label)
-	}
-	if got == after {
-		e.class("after")
-	} else {
-		e.class("before")
-	}
-	if db != nil {
-		_, fs := mon.CheckDB(n, dbName, want)
-		for _, f := range fs {
-			e.viol("recovered-"+f.Prop+"-"+f.Key+"/"+e.c.H+"/"+what, "crash before [%d: %s]: after restart: %s", i, s.label, f.What)
-		}
-		if _, err := os.Stat(db.JournalPath()); err == nil {
-			e.viol("hot-journal-left/"+e.c.H+"/"+what, "crash before [%d: %s]: a journal is left after restart", i, s.label)
-		}
-		if b, err := os.ReadFile(db.WALPath()); err == nil && len(b) > 0 {
-			e.viol("wal-left/"+e.c.H+"/"+what, "crash before [%d: %s]: %d bytes of WAL are left after restart", i, s.label, len(b))
-		}
-	} else if want.N() > 0 {
-		e.viol("db-missing/"+e.c.H+"/"+what, "crash before [%d: %s]: database unknown after restart", i, s.label)
-		return
-	}
-	if len(e.res.V) > 0 {
-		return
-	}
-	// The restarted node can commit again (and the commit is captured).
-	if want.N() > 0 {
-		conn := pager.NewConn(n.M, dbName, 900, want.PageSize)
-		var committed bool
-		var ferr error
-		var step string
-		var intended *oracle.Image
-		func() {
-			defer func() {
-				if p := recover(); p != nil {
-					ferr = fmt.Errorf("panic: %v", p)
-				}
-			}()
-			if want.Pages[0][18] == 2 {
-				r := conn.RunWTx(pager.WTx{Frames: []uint32{1, 2}, Outcome: "commit"}, want)
-				committed, ferr, step, intended = r.Committed, r.Err, r.ErrStep, r.Intended
-			} else {
-				r := conn.RunRTx(pager.RTx{Mods: []uint32{2}, Final: "DELETE", Outcome: "commit"}, want)
-				committed, ferr, step, intended = r.Committed, r.Err, r.ErrStep, r.Intended
-			}
-			conn.Close()
-		}()
-		if ferr != nil || !committed {
-			e.viol("followup-commit-failed/"+e.c.H+"/"+what, "crash before [%d: %s]: after restart a new transaction failed at %q: %v", i, s.label, step, ferr)
-			return
-		}
-		np := posOf(n.DB(dbName))
-		if np[0] != got[0]+1 {
-			e.viol("followup-txid/"+e.c.H+"/"+what, "crash before [%d: %s]: follow-up commit moved TXID %d -> %d", i, s.label, got[0], np[0])
-		}
-		_, fs := mon.CheckDB(n, dbName, intended)
-		for _, f := range fs {
-			e.viol("followup-"+f.Prop+"-"+f.Key+"/"+e.c.H+"/"+what, "crash before [%d: %s]: after follow-up commit: %s", i, s.label, f.What)
-		}
-	}
-	if codes := n.ExitCodes(); len(codes) > 0 {
-		e.viol("exit-after-restart/"+e.c.H+"/"+what, "crash before [%d: %s]: Store.Exit(%v) after restart", i, s.label, codes)
-	}
-}
-
-func (e *env) class(s string) {
-	if e.res.Classes == nil {
-		e.res.Classes = map[string]int{}
-	}
-	e.res.Classes[e.c.H+"/"+s]++
-}
-
-func kindOf(label string) string {
-	f := strings.Fields(label)
-	if len(f) == 0 {
-		return "?"
-	}
-	switch f[0] {
-	case "client":
-		if len(f) > 3 {
-			f = f[:3]
-		}
-	case "litefs":
-		if len(f) > 4 {
-			f = f[:4]
-		}
-	}
-	out := strings.Join(f, "_")
-	var sb strings.Builder
-	for _, r := range out {
-		if r >= '0' && r <= '9' {
-			continue
-		}
-		sb.WriteRune(r)
-	}
-	return sb.String()
-}
-
-// ---------------------------------------------------------------------------
-// Histories.
-
-// single runs a history on one primary node; op performs the operation under test.
-func (e *env) single(t *testing.T, wal bool, prep func(n *lab.Node, a *pager.Conn, img *oracle.Image) *oracle.Image,
-	op func(n *lab.Node, col *collector, a *pager.Conn, img *oracle.Image) (*oracle.Image, error)) {
-	live := filepath.Join(e.base, "live")
-	col := &collector{live: live, base: e.base}
-	ncfg := lab.NodeConfig{WrapOS: col.wrapOS}
-	if strings.HasPrefix(e.c.H, "H15") {
-		e.svc = lab.NewBackupSvc(filepath.Join(e.base, "svc"))
-		bc := litefs.NewFileBackupClient(e.svc.Dir)
-		if err := bc.Open(); err != nil {
-			e.res.Harness = err.Error()
-			return
-		}
-		ncfg.BackupClient = &lab.FaultClient{Inner: bc}
-	}
-	n, err := lab.StartPrimary(live, ncfg)
-	if err != nil {
-		e.res.Harness = err.Error()
-		return
-	}
-	stopped := false
-	defer func() {
-		litefs.VerifSetHook(nil)
-		if !stopped {
-			_ = n.Stop()
-		}
-	}()
-	col.hookStore(n.Store)
-	a := pager.NewConn(n.M, "db", 1, e.c.PageSize)
-	var img *oracle.Image
-	if e.c.Start > 0 {
-		r := a.RunRTx(pager.RTx{Create: true, NewSize: e.c.Start, Final: "DELETE", Outcome: "commit"}, nil)
-		if r.Err == nil && r.Committed {
-			r = a.RunRTx(pager.RTx{Mods: []uint32{2}, Final: "DELETE", Outcome: "commit", ToWAL: wal}, r.Intended)
-		}
-		if r.Err != nil || !r.Committed {
-			e.res.Harness = fmt.Sprintf("setup failed: %v at %s", r.Err, r.ErrStep)
-			return
-		}
-		img = r.Intended
-		if wal {
-			a.Close()
-		}
-	} else {
-		img = &oracle.Image{PageSize: e.c.PageSize}
-	}
-	if prep != nil {
-		img = prep(n, a, img)
-		if img == nil {
-			return
-		}
-	}
-	before := posOf(n.DB("db"))
-	beforeImg := img
-	// The client's commit has returned success once the operation that finalises it has returned:
-	// journal unlink / truncate / zeroed header in rollback mode, the WRITE-lock release in WAL mode.
-	a.Acked = false
-	a.Before = func(step int, desc string) {
-		if a.Acked {
-			col.acked = true
-		}
-		col.snap("client " + desc)
-	}
-	col.on = true
-	afterImg, err := op(n, col, a, img)
-	if a.Acked {
-		col.acked = true
-	}
-	col.snap("end of operation")
-	col.on = false
-	a.Before = nil
-	if err != nil {
-		e.res.Harness = "operation under test failed on the live node: " + err.Error()
-		return
-	}
-	after := posOf(n.DB("db"))
-	a.Close()
-	_ = n.Stop()
-	stopped = true
-	litefs.VerifSetHook(nil)
-	e.judge(col, before, after, beforeImg, afterImg, "db")
-}
-
-func rtxOp(tx pager.RTx) func(n *lab.Node, col *collector, a *pager.Conn, img *oracle.Image) (*oracle.Image, error) {
-	return func(n *lab.Node, col *collector, a *pager.Conn, img *oracle.Image) (*oracle.Image, error) {
-		// The commit "returns success" when the finalising journal operation returns.
-		r := a.RunRTx(tx, img)
-		if r.Err != nil || !r.Committed {
-			return nil, fmt.Errorf("%v at %s", r.Err, r.ErrStep)
-		}
-		return r.Intended, nil
-	}
-}
-
-func (e *env) replica(t *testing.T, wal bool, ahead bool, op func(c *lab.Cluster, P *lab.Node, a *pager.Conn, img *oracle.Image) (*oracle.Image, error), snapshotJoin bool) {
-	c := lab.NewCluster(10 * time.Second)
-	defer c.Close()
-	col := &collector{base: e.base}
-	c.AddNode("P", true, nil)
-	c.AddNode("R1", false, func(cfg *lab.NodeConfig) { cfg.WrapOS = col.wrapOS })
-	col.live = c.Nodes["R1"].Cfg.Dir
-	if err := c.Start("P"); err != nil || c.WaitPrimary(5*time.Second) == nil {
-		e.res.Harness = "cluster start failed"
-		return
-	}
-	P, R := c.Nodes["P"], c.Nodes["R1"]
-	defer litefs.VerifSetHook(nil)
-	a := pager.NewConn(P.M, "db", 1, e.c.PageSize)
-	defer a.Close()
-	r := a.RunRTx(pager.RTx{Create: true, NewSize: e.c.Start, Final: "DELETE", Outcome: "commit"}, nil)
-	if r.Err == nil && r.Committed {
-		lab.Settle(300 * time.Millisecond)
-		r = a.RunRTx(pager.RTx{Mods: []uint32{2}, Final: "DELETE", Outcome: "commit", ToWAL: wal}, r.Intended)
-	}
-	if r.Err != nil || !r.Committed {
-		e.res.Harness = fmt.Sprintf("setup failed: %v at %s", r.Err, r.ErrStep)
-		return
-	}
-	if wal {
-		a.Close()
-	}
-	img := r.Intended
-	if !snapshotJoin {
-		if err := c.Start("R1"); err != nil {
-			e.res.Harness = "start R1: " + err.Error()
-			return
-		}
-		if ok, why := c.WaitConverged(20*time.Second, nil); !ok {
-			e.res.Harness = "setup did not converge: " + why
-			return
-		}
-	}
-	var before pos
-	if !snapshotJoin {
-		before = posOf(R.DB("db"))
-	}
-	beforeImg := img
-	if snapshotJoin {
-		beforeImg = &oracle.Image{PageSize: e.c.PageSize}
-	}
-	col.on = true
-	col.hookStoreLazy(func() *litefs.Store { return R.Store })
-	afterImg, err := op(c, P, a, img)
-	if err != nil {
-		e.res.Harness = "operation failed: " + err.Error()
-		return
-	}
-	if snapshotJoin {
-		if err := c.Start("R1"); err != nil {
-			e.res.Harness = "start R1: " + err.Error()
-			return
-		}
-	}
-	ok, why := c.WaitConverged(30*time.Second, nil)
-	col.snap("end of operation")
-	col.on = false
-	litefs.VerifSetHook(nil)
-	if !ok {
-		e.viol("C01/no-convergence/"+e.c.H, "replica did not converge during the history: %s", why)
-		return
-	}
-	after := posOf(R.DB("db"))
-	_ = R.Stop()
-	e.judge(col, before, after, beforeImg, afterImg, "db")
-}
-
-// replicaFork: a former primary that committed one transaction of its own at the TXID the new primary also used (a fork
-// of equal length) rejoins and is sent a snapshot ending at the very TXID its own log ends with; crash at every point.
-func (e *env) replicaFork(t *testing.T, wal bool, longer bool) {
-	c := lab.NewCluster(10 * time.Second)
-	defer c.Close()
-	col := &collector{base: e.base}
-	c.Defaults = func(cfg *lab.NodeConfig) { cfg.DemoteDelay = 3 * time.Second }
-	c.AddNode("P", true, nil)
-	c.AddNode("R1", true, func(cfg *lab.NodeConfig) { cfg.WrapOS = col.wrapOS })
-	col.live = c.Nodes["R1"].Cfg.Dir
-	if err := c.Start("P"); err != nil || c.WaitPrimary(5*time.Second) == nil {
-		e.res.Harness = "cluster start failed"
-		return
-	}
-	P, R := c.Nodes["P"], c.Nodes["R1"]
-	defer litefs.VerifSetHook(nil)
-	a := pager.NewConn(P.M, "db", 1, e.c.PageSize)
-	r := a.RunRTx(pager.RTx{Create: true, NewSize: e.c.Start, Final: "DELETE", Outcome: "commit"}, nil)
-	if r.Err == nil && r.Committed {
-		lab.Settle(300 * time.Millisecond)
-		r = a.RunRTx(pager.RTx{Mods: []uint32{2}, Final: "DELETE", Outcome: "commit", ToWAL: wal}, r.Intended)
-	}
-	a.Close()
-	if r.Err != nil || !r.Committed {
-		e.res.Harness = fmt.Sprintf("setup failed: %v at %s", r.Err, r.ErrStep)
-		return
-	}
-	base := r.Intended
-	if err := c.Start("R1"); err != nil {
-		e.res.Harness = "start R1: " + err.Error()
-		return
-	}
-	if ok, why := c.WaitConverged(20*time.Second, nil); !ok {
-		e.res.Harness = "setup did not converge: " + why
-		return
-	}
-	commit := func(n *lab.Node, owner uint64, pg uint32) (*oracle.Image, error) {
-		cn := pager.NewConn(n.M, "db", owner, e.c.PageSize)
-		defer cn.Close()
-		if wal {
-			w := cn.RunWTx(pager.WTx{Frames: []uint32{1, pg}, Outcome: "commit"}, base)
-			if w.Err != nil || !w.Committed {
-				return nil, fmt.Errorf("%v at %s", w.Err, w.ErrStep)
-			}
-			return w.Intended, nil
-		}
-		x := cn.RunRTx(pager.RTx{Mods: []uint32{pg}, Final: "DELETE", Outcome: "commit"}, base)
-		if x.Err != nil || !x.Committed {
-			return nil, fmt.Errorf("%v at %s", x.Err, x.ErrStep)
-		}
-		return x.Intended, nil
-	}
-	c.Net.Block("P", "R1")
-	imgA, err := commit(P, 11, 2)
-	if err != nil {
-		e.res.Harness = "P's transaction: " + err.Error()
-		return
-	}
-	P.Store.Demote()
-	if !lab.WaitFor(40*time.Second, R.Store.IsPrimary) {
-		e.res.Harness = "R1 did not take over"
-		return
-	}
-	imgB, err := commit(R, 12, 3)
-	if err != nil {
-		e.res.Harness = "R1's transaction: " + err.Error()
-		return
-	}
-	if longer {
-		// the fork is one transaction longer than the new primary's history: the snapshot rewinds the node
-		base = imgB
-		if imgB, err = commit(R, 13, 2); err != nil {
-			e.res.Harness = "R1's second transaction: " + err.Error()
-			return
-		}
-	}
-	R.Store.Demote()
-	if !lab.WaitFor(40*time.Second, func() bool { return P.Store.IsPrimary() && !R.Store.IsPrimary() }) {
-		e.res.Harness = "P did not become primary again"
-		return
-	}
-	before := posOf(R.DB("db"))
-	if pp := posOf(P.DB("db")); (!longer && before[0] != pp[0]) || (longer && before[0] != pp[0]+1) || before == pp {
-		e.res.Harness = fmt.Sprintf("no fork of the wanted length: R1 %v P %v", before, pp)
-		return
-	}
-	col.on = true
-	col.hookStoreLazy(func() *litefs.Store { return R.Store })
-	c.Net.Unblock("P", "R1")
-	ok, why := c.WaitConverged(40*time.Second, nil)
-	col.snap("end of operation")
-	col.on = false
-	litefs.VerifSetHook(nil)
-	if !ok {
-		e.viol("C01/no-convergence/"+e.c.H, "the forked node did not converge: %s", why)
-		return
-	}
-	after := posOf(R.DB("db"))
-	_ = R.Stop()
-	e.judge(col, before, after, imgB, imgA, "db")
-}
-
-func (col *collector) hookStoreLazy(get func() *litefs.Store) {
-	litefs.VerifSetHook(func(site string, obj any, a int64, b bool) {
-		db, ok := obj.(*litefs.DB)
-		if !ok || db.Store() != get() {
-			return
-		}
-		switch site {
-		case "db.writepage":
-			col.snap(fmt.Sprintf("litefs page write %d", a))
-		case "db.truncate":
-			col.snap(fmt.Sprintf("litefs database truncate to %d pages", a))
-		}
-	})
-}
-
-func run1(t *testing.T, c Case) (res Result) {
-	e := &env{c: c, res: &res}
-	synctest.Test(t, func(t *testing.T) {
-		e.base = lab.ScratchDir("c05")
-		defer lab.RemoveAll(e.base)
-		defer func() {
-			if p := recover(); p != nil {
-				res.Harness = fmt.Sprintf("panic in history: %v\n%s", p, debug.Stack())
-			}
-			litefs.VerifSetHook(nil)
-		}()
-		s := c.Start
-		fins := []string{"DELETE", "TRUNCATE", "PERSIST"}
-		fin := fins[c.Variant%3]
-		switch c.H {
-		case "H1-first-tx":
-			e.c.Start = 0
-			e.single(t, false, nil, rtxOp(pager.RTx{Create: true, NewSize: 3, Final: fin, Outcome: "commit", SyncMode: (c.Variant / 3) * 2}))
-		case "H2-grow":
-			e.single(t, false, nil, rtxOp(pager.RTx{Mods: []uint32{2}, NewSize: s + 2, Final: fin, Outcome: "commit"}))
-		case "H3-shrink":
-			ns := s - 1
-			if s > 256 {
-				ns = 200
-			}
-			e.single(t, false, nil, rtxOp(pager.RTx{Mods: []uint32{2}, NewSize: ns, Final: fin, Outcome: "commit"}))
-		case "H4-multi-segment":
-			e.single(t, false, nil, rtxOp(pager.RTx{Mods: []uint32{2, 3, s}, SpillAfter: []int{1, 2}, NewSize: s + 1, Final: fin, Outcome: "commit"}))
-		case "H5-rollback-after-spill":
-			e.single(t, false, nil, func(n *lab.Node, col *collector, a *pager.Conn, img *oracle.Image) (*oracle.Image, error) {
-				r := a.RunRTx(pager.RTx{Mods: []uint32{2, s}, SpillAfter: []int{1}, Final: fin, Outcome: "rollback"}, img)
-				if r.Err != nil {
-					return nil, fmt.Errorf("%v at %s", r.Err, r.ErrStep)
-				}
-				return img, nil
-			})
-		case "H6-wal-fresh":
-			e.single(t, true, nil, func(n *lab.Node, col *collector, a *pager.Conn, img *oracle.Image) (*oracle.Image, error) {
-				r := a.RunWTx(pager.WTx{Frames: []uint32{1, 3, s + 1}, Split: c.Variant % 3, Outcome: "commit"}, img)
-				if r.Err != nil || !r.Committed {
-					return nil, fmt.Errorf("%v at %s", r.Err, r.ErrStep)
-				}
-				return r.Intended, nil
-			})
-		case "H7-wal-after-restart", "H7b-wal-second-tx":
-			e.single(t, true, func(n *lab.Node, a *pager.Conn, img *oracle.Image) *oracle.Image {
-				r := a.RunWTx(pager.WTx{Frames: []uint32{1, 2, 2, s}, Outcome: "commit"}, img)
-				if r.Err != nil || !r.Committed {
-					e.res.Harness = "prep wtx failed"
-					return nil
-				}
-				if c.H == "H7-wal-after-restart" {
-					b := pager.NewConn(n.M, "db", 3, e.c.PageSize)
-					if err := b.Checkpoint("RESTART", 0); err != nil {
-						e.res.Harness = "prep ckpt failed: " + err.Error()
-						return nil
-					}
-					b.Close()
-				}
-				return r.Intended
-			}, func(n *lab.Node, col *collector, a *pager.Conn, img *oracle.Image) (*oracle.Image, error) {
-				ns := uint32(0)
-				if c.Variant == 1 {
-					ns = s - 1
-				}
-				r := a.RunWTx(pager.WTx{Frames: []uint32{1, 3}, NewSize: ns, Outcome: "commit"}, img)
-				if r.Err != nil || !r.Committed {
-					return nil, fmt.Errorf("%v at %s", r.Err, r.ErrStep)
-				}
-				return r.Intended, nil
-			})
-		case "H8-sqlite-checkpoint":
-			modes := []string{"PASSIVE", "FULL", "RESTART", "TRUNCATE"}
-			e.single(t, true, func(n *lab.Node, a *pager.Conn, img *oracle.Image) *oracle.Image {
-				r := a.RunWTx(pager.WTx{Frames: []uint32{1, 2, s + 1}, Outcome: "commit"}, img)
-				if r.Err != nil || !r.Committed {
-					e.res.Harness = "prep wtx failed"
-					return nil
-				}
-				r2 := a.RunWTx(pager.WTx{Frames: []uint32{1}, NewSize: s, Outcome: "commit"}, r.Intended)
-				if r2.Err != nil || !r2.Committed {
-					e.res.Harness = "prep wtx2 failed"
-					return nil
-				}
-				return r2.Intended
-			}, func(n *lab.Node, col *collector, a *pager.Conn, img *oracle.Image) (*oracle.Image, error) {
-				b := pager.NewConn(n.M, "db", 3, e.c.PageSize)
-				b.Before = func(step int, desc string) { col.snap("client " + desc) }
-				err := b.Checkpoint(modes[c.Variant%4], 0)
-				b.Before = nil
-				b.Close()
-				return img, err
-			})
-		case "H8b-wal-tx-after-checkpoint":
-			// Three WAL transactions (the newest LTX records a large WAL offset), a RESTART or TRUNCATE checkpoint, then a
-			// small transaction that starts the next WAL generation (new salts) and dies at every point.
-			e.single(t, true, func(n *lab.Node, a *pager.Conn, img *oracle.Image) *oracle.Image {
-				cur := img
-				for i := 0; i < 3; i++ {
-					r := a.RunWTx(pager.WTx{Frames: []uint32{1, 2, 3}, Outcome: "commit"}, cur)
-					if r.Err != nil || !r.Committed {
-						e.res.Harness = "prep wtx failed"
-						return nil
-					}
-					cur = r.Intended
-				}
-				if err := a.Checkpoint([]string{"TRUNCATE", "RESTART"}[c.Variant%2], 0); err != nil {
-					e.res.Harness = "prep checkpoint failed: " + err.Error()
-					return nil
-				}
-				return cur
-			}, func(n *lab.Node, col *collector, a *pager.Conn, img *oracle.Image) (*oracle.Image, error) {
-				r := a.RunWTx(pager.WTx{Frames: []uint32{2}, Outcome: "commit"}, img)
-				if r.Err != nil || !r.Committed {
-					return nil, fmt.Errorf("%v at %s", r.Err, r.ErrStep)
-				}
-				return r.Intended, nil
-			})
-		case "H9-litefs-recover":
-			e.single(t, c.Variant%2 == 1, func(n *lab.Node, a *pager.Conn, img *oracle.Image) *oracle.Image {
-				if c.Variant%2 == 1 {
-					r := a.RunWTx(pager.WTx{Frames: []uint32{1, 2, s + 1}, Outcome: "commit"}, img)
-					if r.Err != nil || !r.Committed {
-						e.res.Harness = "prep wtx failed"
-						return nil
-					}
-					a.Close()
-					return r.Intended
-				}
-				// a hot journal left by a dead client: run a transaction up to just before finalisation
-				func() {
-					defer func() { _ = recover() }()
-					a.Before = func(step int, desc string) {
-						if strings.HasPrefix(desc, "db fsync") {
-							panic(pager.Abort{})
-						}
-					}
-					a.RunRTx(pager.RTx{Mods: []uint32{2, s}, NewSize: s + 1, Final: "DELETE", Outcome: "commit"}, img)
-				}()
-				a.Before = nil
-				a.Close()
-				return img
-			}, func(n *lab.Node, col *collector, a *pager.Conn, img *oracle.Image) (*oracle.Image, error) {
-				return img, n.Store.Recover(context.Background())
-			})
-		case "H12-drop":
-			e.single(t, c.Variant%2 == 1, nil, func(n *lab.Node, col *collector, a *pager.Conn, img *oracle.Image) (*oracle.Image, error) {
-				a.Close()
-				err := n.M.Remove("db")
-				return &oracle.Image{PageSize: e.c.PageSize}, err
-			})
-		case "H14-import":
-			e.single(t, c.Variant%2 == 1, nil, func(n *lab.Node, col *collector, a *pager.Conn, img *oracle.Image) (*oracle.Image, error) {
-				a.Close()
-				ps := e.c.PageSize
-				im := &oracle.Image{PageSize: ps}
-				im.Pages = append(im.Pages, pager.MakePage1(ps, 0x5000, 4, c.Variant >= 2, 9))
-				for pg := uint32(2); pg <= 4; pg++ {
-					im.Pages = append(im.Pages, pager.MakePage(ps, pg, 0x5000))
-				}
-				err := n.DB("db").Import(n.Store.PrimaryCtx(context.Background()), bytes.NewReader(im.Bytes()))
-				want := im.Clone()
-				for _, off := range []int{24, 25, 26, 27, 40, 41, 42, 43} {
-					want.Pages[0][off] = 0
-				}
-				return want, err
-			})
-		case "H15-restore-from-backup":
-			// The backup service is one transaction ahead of the primary: a sync makes the primary adopt the service's snapshot over its own database and log.
-			var want *oracle.Image
-			e.single(t, c.Variant%2 == 1, func(n *lab.Node, a *pager.Conn, img *oracle.Image) *oracle.Image {
-				if err := n.Store.SyncBackup(context.Background()); err != nil {
-					e.res.Harness = "first sync: " + err.Error()
-					return nil
-				}
-				ch := e.svc.Chain("db")
-				if len(ch.Errors) > 0 || ch.Pos() != n.DB("db").Pos() {
-					e.res.Harness = fmt.Sprintf("service not at the primary's position after the first sync: %v %s", ch.Errors, ch.Pos())
-					return nil
-				}
-				pos := ch.Pos()
-				want = ch.Image().Clone()
-				want.Pages[1] = pager.MakePage(want.PageSize, 2, 0x777)
-				data := lab.EncodeLTX(ltx.Header{Version: 1, PageSize: uint32(want.PageSize), Commit: want.N(), MinTXID: pos.TXID + 1, MaxTXID: pos.TXID + 1, Timestamp: 3, PreApplyChecksum: pos.PostApplyChecksum, NodeID: 0xA4EAD},
-					map[uint32][]byte{2: want.Pages[1]}, want.Checksum())
-				if err := e.svc.Put("db", pos.TXID+1, pos.TXID+1, data); err != nil {
-					e.res.Harness = err.Error()
-					return nil
-				}
-				return img
-			}, func(n *lab.Node, col *collector, a *pager.Conn, img *oracle.Image) (*oracle.Image, error) {
-				a.Close()
-				return want, n.Store.SyncBackup(context.Background())
-			})
-		case "H10-replica-incremental":
-			shapes := []pager.RTx{
-				{Mods: []uint32{2}, NewSize: s + 2, Final: "DELETE", Outcome: "commit"},
-				{Mods: []uint32{2}, NewSize: s - 1, Final: "DELETE", Outcome: "commit"},
-			}
-			e.replica(t, false, false, func(cl *lab.Cluster, P *lab.Node, a *pager.Conn, img *oracle.Image) (*oracle.Image, error) {
-				r := a.RunRTx(shapes[c.Variant%2], img)
-				if r.Err != nil || !r.Committed {
-					return nil, fmt.Errorf("%v at %s", r.Err, r.ErrStep)
-				}
-				return r.Intended, nil
-			}, false)
-		case "H10w-replica-incremental-wal":
-			e.replica(t, true, false, func(cl *lab.Cluster, P *lab.Node, a *pager.Conn, img *oracle.Image) (*oracle.Image, error) {
-				ns := s + 1
-				fr := []uint32{1, 2, s + 1}
-				if c.Variant%2 == 1 {
-					ns, fr = s-1, []uint32{1}
-				}
-				r := a.RunWTx(pager.WTx{Frames: fr, NewSize: ns, Outcome: "commit"}, img)
-				if r.Err != nil || !r.Committed {
-					return nil, fmt.Errorf("%v at %s", r.Err, r.ErrStep)
-				}
-				return r.Intended, nil
-			}, false)
-		case "H11-replica-snapshot":
-			e.replica(t, c.Variant%2 == 1, false, func(cl *lab.Cluster, P *lab.Node, a *pager.Conn, img *oracle.Image) (*oracle.Image, error) {
-				return img, nil
-			}, true)
-		case "H11b-replica-resnapshot":
-			// A populated replica falls behind a trimmed log (or, variant 2/3, forks) and is sent a snapshot over its existing database and log.
-			e.replica(t, c.Variant%2 == 1, false, func(cl *lab.Cluster, P *lab.Node, a *pager.Conn, img *oracle.Image) (*oracle.Image, error) {
-				cl.Net.Block("P", "R1")
-				cur := img
-				for i := 0; i < 2; i++ {
-					if c.Variant%2 == 1 {
-						r := a.RunWTx(pager.WTx{Frames: []uint32{2}, Outcome: "commit"}, cur)
-						if r.Err != nil || !r.Committed {
-							return nil, fmt.Errorf("%v at %s", r.Err, r.ErrStep)
-						}
-						cur = r.Intended
-					} else {
-						r := a.RunRTx(pager.RTx{Mods: []uint32{2}, NewSize: s + uint32(i) + 1, Final: "DELETE", Outcome: "commit"}, cur)
-						if r.Err != nil || !r.Committed {
-							return nil, fmt.Errorf("%v at %s", r.Err, r.ErrStep)
-						}
-						cur = r.Intended
-					}
-				}
-				db := P.DB("db")
-				ents, _ := os.ReadDir(db.LTXDir())
-				old := time.Now().Add(-24 * time.Hour)
-				for _, ent := range ents {
-					_ = os.Chtimes(filepath.Join(db.LTXDir(), ent.Name()), old, old)
-				}
-				P.Store.Retention = time.Minute
-				if err := P.Store.EnforceRetention(context.Background()); err != nil {
-					return nil, err
-				}
-				cl.Net.Unblock("P", "R1")
-				return cur, nil
-			}, false)
-		case "H11c-replica-fork-resnapshot":
-			e.replicaFork(t, c.Variant%2 == 1, c.Variant/2 == 1)
-		case "H13-replica-tombstone":
-			e.replica(t, c.Variant%2 == 1, false, func(cl *lab.Cluster, P *lab.Node, a *pager.Conn, img *oracle.Image) (*oracle.Image, error) {
-				a.Close()
-				return &oracle.Image{PageSize: e.c.PageSize}, P.M.Remove("db")
-			}, false)
-		default:
-			res.Harness = "unknown history " + c.H
-		}
-	})
-	return res
-}
-
-var _ = http.StatusOK
-var _ = lfshttp.DefaultAddr
-
 func TestCheck(t *testing.T) {
-	if vlib.IsWorker() {
-		vlib.Serve(func(in json.RawMessage) any {
-			var c Case
-			if err := json.Unmarshal(in, &c); err != nil {
-				return Result{Harness: "bad case"}
-			}
-			return run1(t, c)
-		})
-	}
+	crashh.ServeIfWorker(t)
 	run := vlib.Start("C05", "fault_enumeration")
-	hs := []struct {
-		name     string
-		variants int
-	}{
-		{"H1-first-tx", 6}, {"H2-grow", 3}, {"H3-shrink", 3}, {"H4-multi-segment", 3}, {"H5-rollback-after-spill", 3},
-		{"H6-wal-fresh", 3}, {"H7-wal-after-restart", 2}, {"H7b-wal-second-tx", 2}, {"H8-sqlite-checkpoint", 4}, {"H8b-wal-tx-after-checkpoint", 2}, {"H9-litefs-recover", 2},
-		{"H12-drop", 2}, {"H14-import", 4}, {"H10-replica-incremental", 2}, {"H10w-replica-incremental-wal", 2}, {"H11-replica-snapshot", 2}, {"H11b-replica-resnapshot", 2}, {"H11c-replica-fork-resnapshot", 4}, {"H15-restore-from-backup", 2}, {"H13-replica-tombstone", 2},
+	cov := crashh.RunAll(run, nil)
+	if n, _ := cov["distinct_nontrivial"].(int); n < 6 && run.NViolations() == 0 {
+		run.HarnessError("vacuous: %d classes", n)
 	}
-	type geo struct {
-		ps    int
-		start uint32
-	}
-	geos := []geo{{512, 4}, {4096, 4}}
-	if run.Thorough() {
-		geos = append(geos, geo{512, 257}, geo{1024, 300}, geo{65536, 4}, geo{8192, 5})
-	}
-	var cases []Case
-	for _, g := range geos {
-		for _, h := range hs {
-			for v := 0; v < h.variants; v++ {
-				cases = append(cases, Case{H: h.name, PageSize: g.ps, Start: g.start, Variant: v})
-			}
-		}
-	}
-	pool := vlib.NewPool()
-	pool.CaseTimeout = 120 * time.Second
-	defer pool.Close()
-	anyCases := make([]any, len(cases))
-	for i := range cases {
-		anyCases[i] = cases[i]
-	}
-	images := 0
-	classes := map[string]int{}
-	var samples []any
-	pool.Run(anyCases, func(i int, out json.RawMessage, crash *vlib.Crash, flaky bool) {
-		if flaky {
-			run.HarnessError("case crashed once and passed on re-run: %+v", cases[i])
-		}
-		if crash != nil {
-			run.Violation("crash/"+cases[i].H, fmt.Sprintf("worker died twice on %+v (timeout=%v)\n%s", cases[i], crash.Timeout, tailS(crash.Output, 2000)), map[string]any{"case": cases[i]})
-			return
-		}
-		var r Result
-		if err := json.Unmarshal(out, &r); err != nil {
-			run.HarnessError("bad result: %v", err)
-			return
-		}
-		if r.Harness != "" {
-			run.HarnessError("%s (case %+v)", r.Harness, cases[i])
-		}
-		for _, v := range r.V {
-			run.Violation(v.Key, v.What, map[string]any{"case": cases[i]})
-		}
-		images += r.Images
-		for k, n := range r.Classes {
-			classes[k] += n
-		}
-		if len(samples) < 6 && i%7 == 0 {
-			samples = append(samples, map[string]any{"case": cases[i], "crash_points": r.Images, "some_crash_points": r.Sample})
-		}
-	})
-	cov := map[string]any{
-		"evaluations":         images,
-		"distinct_nontrivial": len(classes),
-		"histories":           len(cases),
-		"recovery_classes":    classes,
-		"exhaustive":          true,
-		"samples":             samples,
-		"rule":                "one crash image per (history, crash point): crash points are every client file operation, every mutating call through Store.OS (create, rename, remove, truncate, open-for-create, mkdir, write-file; SHM excluded) and every internal page write / database truncate of the operation under test; distinct_nontrivial counts distinct (history, recovered side before|after) classes, each of which required a full reopen, monitor pass and follow-up commit",
-	}
-	if len(classes) < 6 && run.NViolations() == 0 {
-		run.HarnessError("vacuous: %d classes", len(classes))
-	}
-	run.Finish(cov, []string{
-		"Crash model: the LiteFS process dies, every completed system call persists (no power loss): a missing fsync is not observable and is out of scope (DESIGN.md §5).",
-		"SQLite is played by the pager simulator; the restarted node is opened as a static primary so that a follow-up commit can be attempted.",
-		"Histories H15 (restore from backup) and H16 (forwarded commit) are covered by the C14 and C13 checks' own recovery steps, not here.",
-	})
-}
-
-func tailS(s string, n int) string {
-	if len(s) > n {
-		return s[len(s)-n:]
-	}
-	return s
+	run.Finish(cov, append(append([]string{}, crashh.Assumptions...),
+		"Histories H15 (restore from backup) and H16 (forwarded commit) are covered by the C14 and C13 checks' own recovery steps, not here."))
 }
